@@ -83,6 +83,51 @@ def component_index(repo, mod, fn_node, expr, spec_names):
     return None
 
 
+def writer_stage(repo, which: str):
+    """The writer's per-variable / per-block function, found among the functions reachable from
+    UDPMessageSerializer.serialize (own helpers and collaborator objects): the one that calls TemplateDataPacker.pack
+    ('var'), resp. the one that walks a template block's `.variables` ('block').  Falls back to the historical names."""
+    sf = repo.fn("UDPMessageSerializer.serialize")
+    fns = class_methods_reachable(repo, sf, depth=4)
+    if which == "var":
+        cands = [f for f in fns if any((ap(c.func) or "").endswith("TemplateDataPacker.pack") for c in calls(f.node))]
+        legacy = "UDPMessageSerializer._serialize_var"
+    else:
+        cands = [f for f in fns if any(isinstance(n, ast.For) and (ap(n.iter) or "").endswith(".variables") for n in walk(f.node))]
+        legacy = "UDPMessageSerializer._serialize_block"
+    if len(cands) == 1:
+        return cands[0]
+    return repo.fn(legacy)
+
+
+def parser_stage(repo, regex_name: str, legacy_name: str):
+    """The function that turns a match of MessageTemplateParser.<regex_name> into a template object: the callee that
+    _parse_template_file hands the match to (found structurally, so a renamed / moved-out stage function is still
+    the anchor); falls back to the historical method name."""
+    pc = repo.cls("MessageTemplateParser")
+    for f in pc.methods.values():
+        matched = set()
+        for st in stores(f.node, into_defs=False):
+            v = st.value
+            if st.kind == "assign" and isinstance(v, ast.Call) and call_attr(v) == "match" and \
+                    (ap(v.func) or "").endswith(f"{regex_name}.match"):
+                matched.add(st.path)
+        if not matched:
+            continue
+        for c in calls(f.node):
+            if any(ap(a) in matched for a in c.args):
+                tgt = None
+                if isinstance(c.func, ast.Attribute) and isinstance(c.func.value, ast.Name) and c.func.value.id in ("self", "cls"):
+                    tgt = repo.lookup_method(pc, c.func.attr)
+                elif isinstance(c.func, ast.Name):
+                    cands = [g for g in repo.funcs.get(c.func.id, []) if g.cls is None and g.parent_fn is None]
+                    cands = [g for g in cands if g.module is pc.module] or cands
+                    tgt = cands[0] if len(cands) == 1 else None
+                if tgt is not None:
+                    return tgt
+    return repo.fn(f"MessageTemplateParser.{legacy_name}")
+
+
 def callable_norm(repo, mod, node) -> str:
     """Normal form of a one-argument callable expression: a lambda, or a name bound to a module-level
     function whose body is a single `return <expr>` (docstring allowed), is reduced to its body with the
@@ -140,7 +185,7 @@ def r1(ctx):
 
     # parser keyword map: evaluate _start_new_var for every type keyword the template uses (if-chain, dict
     # table or helper - the function is interpreted, not pattern-matched)
-    pf = repo.fn("MessageTemplateParser._start_new_var")
+    pf = parser_stage(repo, "BLOCK_DATA_RE", "_start_new_var")
     tmpl = parse_template(repo.root, repo.overlay)
     kwmap = {}
     kw_in_template = sorted({v.type for m in tmpl.values() for b in m.blocks for v in b.vars})
@@ -270,6 +315,22 @@ def r1(ctx):
                         and s_.value is not None]
                 if vals:
                     return all(uses(v, method) for v in vals)
+            # a callable object: Cls(.., struct_obj, ..) whose __init__ keeps the struct in an attribute that
+            # __call__ (own or inherited) uses
+            if isinstance(expr, ast.Call) and (ap(expr.func) or ""):
+                kci = repo.resolve_class(ap(expr.func), f.module)
+                if kci is not None and repo.lookup_method(kci, "__call__") is not None:
+                    init = repo.lookup_method(kci, "__init__")
+                    callm = repo.lookup_method(kci, "__call__")
+                    if init is not None:
+                        ps = [a.arg for a in init.node.args.args][1:]
+                        bound = {ps[i]: a for i, a in enumerate(expr.args) if i < len(ps)}
+                        bound.update({k.arg: k.value for k in expr.keywords if k.arg})
+                        params = [p_ for p_, a in bound.items() if ap(a) == sl]
+                        attrs = {s_.path.split(".", 1)[1] for s_ in stores(init.node, into_defs=False)
+                                 if s_.kind == "assign" and s_.path.startswith("self.") and s_.path.count(".") == 1
+                                 and isinstance(s_.value, ast.Name) and s_.value.id in params}
+                        return any(ap(c.func) == f"self.{a_}.{method}" for a_ in attrs for c in calls(callm.node))
             # functools.partial(<module function>, .., struct_obj, ..): the struct reaches the function under the
             # name of the parameter it is bound to
             if isinstance(expr, ast.Call) and (ap(expr.func) or "").split(".")[-1] == "partial" and expr.args and \
@@ -354,7 +415,7 @@ def r2_r3(ctx):
                        ok, ctx.w(f, l), "template order wrapped/reordered: the other side walks the plain sequence")
 
     # per-variable framing
-    wv = repo.fn("UDPMessageSerializer._serialize_var") if repo.fn_opt("UDPMessageSerializer._serialize_var") else None
+    wv = writer_stage(repo, "var")
     rv = repo.fn("UDPMessageDeserializer._parse_var") if repo.fn_opt("UDPMessageDeserializer._parse_var") else None
     ctx.require(wv is not None and rv is not None, "anchor _serialize_var/_parse_var vanished")
 
@@ -409,7 +470,7 @@ def r2_r3(ctx):
                len(cs[0].args) == 2 and (ap(cs[0].args[1]) or "").endswith(".type"), f.where)
 
     # R3 block counts
-    wb_ = repo.fn("UDPMessageSerializer._serialize_block")
+    wb_ = writer_stage(repo, "block")
     rbody = [f for f in des_fns]
     w_counts = [c for c in find_calls(wb_.node, "write") if c.args and spec_symbol(c.args[0]) and
                 has_eq_fact(c, ".block_type", "MsgBlockType.MBT_VARIABLE", wb_.node)]
@@ -568,8 +629,24 @@ def r4(ctx):
     def flags_writer(t):
         return any(len(c.args) > 1 and "send_flags" in src(c.args[1]) for c, _, _ in flat_seq(sf, "write", {t[1]}))
     hdr_w = [t for t in w_ctors if t[0] is sf and flags_writer(t)]
-    body_w = [t for t in w_ctors if any(call_attr(c) == "_serialize_block" and c.args and ap(c.args[0]) == t[1]
+    wb_fn = writer_stage(repo, "block")
+    body_w = [t for t in w_ctors if any(call_attr(c) == wb_fn.name and c.args and ap(c.args[0]) == t[1]
                                         for c in calls(t[0].node))]
+    if not body_w and wb_fn.cls is not None:
+        # the block writer lives in a collaborator object that owns its buffer: the writer its spec writes go to is
+        # an attribute bound to BufferWriter(<endianness>) by that class's constructor
+        recvs = {ap(c.func.value) for c in find_calls(wb_fn.node, "write") if isinstance(c.func, ast.Attribute)
+                 and c.args and spec_symbol(c.args[0])}
+        for r_ in sorted(x for x in recvs if x and x.startswith("self.")):
+            for k in repo.mro(wb_fn.cls):
+                init = k.methods.get("__init__")
+                if init is None:
+                    continue
+                for st in stores(init.node, into_defs=False):
+                    v = st.value
+                    if st.kind == "assign" and st.path == r_ and isinstance(v, ast.Call) and call_attr(v) == "BufferWriter" \
+                            and v.args and isinstance(v.args[0], ast.Constant):
+                        body_w.append((init, st.path, v, v.args[0].value))
     r_hdr = ctors([hf], "BufferReader")
     r_body = ctors(bf, "BufferReader")
     ctx.ob("C01.R4", "serializer builds one header writer and one body writer", len(hdr_w) == 1 and len(body_w) == 1,
@@ -696,7 +773,7 @@ def r5(ctx):
     ctx.rule("C01.R5", "default fill emits exactly the template's width for every MsgType (finite-domain "
                        "evaluation of the unset-value path of _serialize_var over the 20 types; helpers followed)")
     members, sizes = msgtype_tables(ctx)
-    f = repo.fn("UDPMessageSerializer._serialize_var")
+    f = writer_stage(repo, "var")
     params = [a.arg for a in f.node.args.args]
     tv = next((p for p in params if "template" in p or "tmpl" in p), None)
     ctx.require(tv is not None, "_serialize_var: template variable parameter not found")
@@ -883,7 +960,7 @@ def r6(ctx):
                f"{2 * maxnum} + 2*offset (msg num {maxnum} bytes and the extra field are zero-coded too)")
 
 
-def _taken_assign(ev, fn_node, env, target):
+def _taken_assign(ev, fn_node, env, target, _depth=0):
     """Value AST assigned to `target` on the branch of the function's if-chains taken under env."""
     found = []
 
@@ -893,6 +970,18 @@ def _taken_assign(ev, fn_node, env, target):
                 st = match_as_if(st) or st
             if isinstance(st, ast.If):
                 t = ev.ev(st.test, env)
+                if isinstance(t, (Sym, CallVal)) and _depth < 3:
+                    # the test may read once-assigned locals that are computable under env (a row looked up in a
+                    # constant table, a key computed from the environment): evaluate them first
+                    for nm in sorted({n.id for n in ast.walk(st.test) if isinstance(n, ast.Name)} - set(env)):
+                        if nm == target:
+                            continue
+                        v = _taken_assign(ev, fn_node, env, nm, _depth + 1)
+                        if v is not None:
+                            val = ev.ev(v, env)
+                            if not isinstance(val, (Sym, CallVal)):
+                                env[nm] = val
+                    t = ev.ev(st.test, env)
                 if isinstance(t, (Sym, CallVal)):
                     continue
                 rec(st.body if t else st.orelse)
@@ -995,6 +1084,26 @@ def _resolve_value(repo, fi, node, env, depth=0):
             return _resolve_value(repo, _LambdaFn(fi, row), row.body, env2, depth + 1)
         if isinstance(row, ast.Name):
             node = ast.copy_location(ast.Call(func=row, args=node.args, keywords=node.keywords), node)
+        # <record>.method(..): the receiver is a local holding a constant table row
+        if isinstance(node.func, ast.Attribute) and isinstance(node.func.value, ast.Name):
+            rname = node.func.value.id
+            rv = env.get(rname)
+            if rv is None:
+                va = _taken_assign(ev, fi.node, env, rname)
+                if va is not None:
+                    rv = ev.ev(va, env)
+            from ..consteval import RecordVal
+            if isinstance(rv, RecordVal):
+                rc = repo.classes.get(rv.cls, [])
+                m = repo.lookup_method(rc[0], node.func.attr) if len(rc) == 1 else None
+                if m is not None:
+                    ps = [a.arg for a in m.node.args.args]
+                    env2 = {ps[0]: rv} if ps else {}
+                    for pname, anode in zip(ps[1:], node.args):
+                        env2[pname] = ev.ev(anode, env)
+                    r = _taken_return(ConstEval(repo, m.module), m.node.body, env2)
+                    if r is not None:
+                        return _resolve_value(repo, m, r, env2, depth + 1)
         if isinstance(node.func, ast.Name):
             cands = [g for g in repo.funcs.get(node.func.id, []) if g.module is fi.module and g.cls is None and g.parent_fn is None]
             target = cands[0] if len(cands) == 1 else None
@@ -1016,18 +1125,36 @@ def _resolve_value(repo, fi, node, env, depth=0):
     return node, fi, env
 
 
-def _num_layout(value_node):
+def _num_layout(value_node, ev=None, env=None):
     """(ff_prefix_len, struct fmt) of a message-number byte expression like b'\xff\xff' + struct.pack('!H', n)
-    or struct.pack('!BBH', 0xff, 0xff, n)."""
+    or struct.pack('!BBH', 0xff, 0xff, n).  Operands that are not literals are evaluated under env (fields of a
+    constant table row, module constants)."""
     ff = 0
     fmt = None
+
+    def const(n, typ):
+        if isinstance(n, ast.Constant) and isinstance(n.value, typ):
+            return n.value
+        if ev is not None and isinstance(n, (ast.Name, ast.Attribute, ast.Subscript)):
+            v = ev.ev(n, env or {})
+            if isinstance(v, typ) and not isinstance(v, bool):
+                return v
+        return None
+    skip = set()
     for n in ast.walk(value_node):
-        if isinstance(n, ast.Constant) and isinstance(n.value, bytes):
-            if set(n.value) - {0xFF}:
+        if id(n) in skip:
+            continue
+        bv = const(n, bytes) if not isinstance(n, ast.Call) else None
+        if bv is not None:
+            for sub in ast.walk(n):
+                skip.add(id(sub))
+            if set(bv) - {0xFF}:
                 return None
-            ff += len(n.value)
-        elif isinstance(n, ast.Call) and ap(n.func) == "struct.pack" and n.args and isinstance(n.args[0], ast.Constant):
-            f = n.args[0].value
+            ff += len(bv)
+        elif isinstance(n, ast.Call) and ap(n.func) == "struct.pack" and n.args and const(n.args[0], str) is not None:
+            f = const(n.args[0], str)
+            for sub in ast.walk(n.args[0]):
+                skip.add(id(sub))
             body = f.lstrip("<>!=@")
             order = f[:len(f) - len(body)]
             lead = 0
@@ -1061,7 +1188,7 @@ def r7(ctx):
     td = "hippolyzer/lib/base/message/template_dict.py"
     bmi = repo.fn("TemplateDictionary.build_message_ids")
     bd = repo.fn("TemplateDictionary.build_dictionaries")
-    snt = repo.fn("MessageTemplateParser._start_new_template")
+    snt = parser_stage(repo, "MESSAGE_HEADER_RE", "_start_new_template")
     glen = repo.fn("MessageTemplate.get_msg_freq_num_len")
     hf = repo.fn("UDPMessageDeserializer._parse_message_header")
     hdr_order = {c.args[0].value for c in find_calls(hf.node, "BufferReader") if c.args and isinstance(c.args[0], ast.Constant)}
@@ -1073,14 +1200,18 @@ def r7(ctx):
             # the expression finally stored into <template>.freq_num_bytes, followed through locals and helpers
             sts = [st_ for st_ in stores(f.node, into_defs=False) if st_.kind == "assign" and st_.path.endswith(".freq_num_bytes")]
             node = None
+            fi_n, env_n = f, dict(env)
             if sts:
-                node, _, _ = _resolve_value(repo, f, sts[-1].value, dict(env))
+                node, fi_n, env_n = _resolve_value(repo, f, sts[-1].value, dict(env))
                 if isinstance(node, ast.Name):
                     node = None
+            if node is None and sts:
+                raise AnalysisError(f"C01.R7: {f.qual}: cannot follow the value stored into freq_num_bytes for {m} "
+                                    f"(`{norm(sts[-1].value)}`)")
             ctx.ob("C01.R7", f"{f.qual}: builds number bytes for {m}", node is not None, f.where)
             if node is None:
                 continue
-            lay = _num_layout(node)
+            lay = _num_layout(node, ConstEval(repo, fi_n.module), env_n)
             if lay is None:
                 raise AnalysisError(f"C01.R7: {f.qual} number bytes for {m} not analysable: {norm(node)}")
             k, fmt = lay
@@ -1226,7 +1357,7 @@ def r11(ctx):
     ctx.rule("C01.R11", "framing totality: the writer rejects a Variable block count only when it does not fit the count "
                         "spec (every count the reader accepts can be written), and the reader strips the ack trailer "
                         "under the ACK flag alone")
-    wb_ = repo.fn("UDPMessageSerializer._serialize_block")
+    wb_ = writer_stage(repo, "block")
     ev = ConstEval(repo, wb_.module)
     counts = [c for c in find_calls(wb_.node, "write") if c.args and spec_symbol(c.args[0]) and
               has_eq_fact(c, ".block_type", "MsgBlockType.MBT_VARIABLE", wb_.node)]
@@ -1361,7 +1492,7 @@ def r12(ctx):
     used = {}
     for name, meth in (("MESSAGE_HEADER_RE", "_start_new_template"), ("BLOCK_HEADER_RE", "_start_new_block"),
                        ("BLOCK_DATA_RE", "_start_new_var")):
-        f = repo.fn(f"MessageTemplateParser.{meth}")
+        f = parser_stage(repo, name, meth)
         gs = sorted({c.args[0].value for c in find_calls(f.node, "group") if c.args and isinstance(c.args[0], ast.Constant)
                      and isinstance(c.args[0].value, int) and c.args[0].value > 0})
         ctx.require(bool(gs), f"C01.R12: {meth} reads no match group")
